@@ -187,7 +187,11 @@ class Report:
 
     # ------------------------------------------------------------------ output
     def finish(self, write=True, update_baseline=False):
-        n_ob = len(self.obs) + len(self.static)
+        known_obs = set(k["obligation"] for k in self.known_reported)
+        n_known = sum(1 for d, r in zip(self.obs, self.results) if r.status != "unsat" and d["name"] in known_obs) + \
+            sum(1 for s in self.static if not s["ok"] and ("static::" + s["name"]) in known_obs)
+        # obligations that fail only because of a recorded known finding are reported separately, not as proved
+        n_ob = len(self.obs) + len(self.static) - n_known
         n_dis = sum(1 for r in self.results if r.status == "unsat") + sum(1 for s in self.static if s["ok"])
         if self.undecided and not self.violations:
             for u in self.undecided[:10]:
@@ -208,6 +212,9 @@ class Report:
                             "verdict": r.status, "backend": r.solver})
         for s in self.static[:3]:
             samples.append({"obligation": "static::" + s["name"], "verdict": "holds" if s["ok"] else "fails", "detail": str(s.get("detail"))[:300]})
+        for b in self.bounded:
+            for sm in b.get("samples", [])[:2]:
+                samples.append({"bounded": b["name"], "case": sm})
         level = self.entry.get("level", "proof")
         coverage = {
             "obligations": n_ob,
@@ -230,6 +237,7 @@ class Report:
             "static_obligations": [{"name": s["name"], "ok": s["ok"]} for s in self.static],
             "bounded": [{k: b[k] for k in b if k not in ("failures",)} for b in self.bounded],
             "known_findings_reported": self.known_reported,
+            "obligations_failing_as_known_findings": n_known,
             "undecided": self.undecided[:20],
             "abstractions": sorted(self.notes),
             "explanation": self.entry.get("explanation", ""),
